@@ -40,7 +40,7 @@ def prepare(run, target="model/BrainCheck.vo"):
     rc, msg = gen_table()
     if rc != 0:
         violation(run, {"broken": "translator cannot read table.rs", "detail": msg}, nofail=True)
-    if run.prop in ("C03", "C08", "C09"):
+    if run.prop in ("C03", "C08", "C09", "C10"):
         source_tie(run, ("brain",))
     rc, out, _ = make([target])
     if rc != 0:
